@@ -197,6 +197,60 @@ prop('C19',
                   'soundness for >= 2 invalid items is probabilistic (Schwartz-Zippel) and not decided'],
      design_ref='DESIGN.md section 4 C19')
 
+SIGN_FUNCS = ('round2::sign / compute_signature_share / SignatureShare::verify / encode_group_commitments / binding_factor_preimages / compute_binding_factor_list / '
+              'derive_interpolating_value / compute_lagrange_coefficient / compute_group_commitment / aggregate / aggregate_custom / detect_cheater / '
+              'verify_signature_share / verify_signature_share_precomputed / VerifyingKey::verify / verify_prehashed / challenge and the default hook bodies')
+SIGN_ASSUMED = ('Assumed: the multiscalar multiplication result inside compute_group_commitment (outlined call, requires equal lengths -- proved; body Kani-backed, bounded), '
+                'BTreeMap::from([(k, v)]) is the one-entry map, the outlined `keys().cloned().collect()` idiom, T7 identifier order, default world (hooks not overridden; the '
+                'Taproot suite is decided in its own unit: C18).')
+prop('C01',
+     level_text='For every ciphersuite in the default world (abstract field/group, H1..H5 arbitrary functions), every (n,t), identifier assignment, signer set and message: Verus proves the '
+                'real text of ' + SIGN_FUNCS + ' against contracts that state the WHOLE result: sign == spec_sign (z_i = d_i + e_i*rho_i + lambda_i*s_i*c with rho, lambda, R, c '
+                'computed from the package in ascending identifier order), aggregate_custom satisfies agg_result_is (refusals in guard order; else (R, sum z_i) if it passes RFC 9591 '
+                'verification under the group key; else the cheater report), verify_signature_share == the RFC 9591 5.3 check. Property theorems (lemmas/vprops_sign.rs): for keys on a '
+                'degree t-1 polynomial (what C06/C07 establish) and any >= t signers with honest commitments, every honest share passes the share check and the aggregate verifies, '
+                'so aggregation returns the signature.',
+     level_note=SIGN_ASSUMED + ' Ordinary single-signer verification of the concrete suites (ed25519-dalek verify_strict, BIP-340) is outside the unit: the proof ends at the RFC 9591 '
+                'verification equation h*(z*B - c*A - R) == 0 with c = H2(enc(R)||enc(A)||msg) (VerifyingKey::verify); that the concrete suites implement this equation and the encodings '
+                'is T3/T4. The session must not hit the identity (vk, commitments, R != identity): the contract returns exactly GroupError in those cases.',
+     assumptions=['honest nonces: commitments are G*d, G*e of the nonces used (C15 proves commit() produces such pairs)',
+                  'keys are shares of one polynomial of degree t-1 with verifying shares G*s_i and group key G*s (proved for dealer keys in C06, per-function for DKG in C07)',
+                  'interoperability with external verifiers (dalek / libsecp256k1) is not decided here'],
+     include=['C06', 'C07'],   # "keys from the trusted dealer or from distributed key generation": the key-generation contracts and theorems count for C01
+     design_ref='DESIGN.md section 4 C01')
+prop('C03',
+     level_text='Verus proves for all inputs: sign returns exactly Err(IncorrectNumberOfCommitments) when the package lists fewer than key_package.min_signers participants (first guard of '
+                'spec_sign); aggregate/aggregate_custom return exactly Err(IncorrectNumberOfShares) when fewer than public_key_package.min_signers shares are submitted (second guard '
+                'of agg_guard_err, after the size-mismatch guard); reconstruct returns Err(IncorrectNumberOfShares) below the smallest recorded threshold (contract in contracts/keys.vc); the '
+                'sharing polynomial has exactly min_signers coefficients of which all but the constant term are fresh draws (generate_secret_polynomial / generate_coefficients contracts).',
+     level_note='NOT decided: "shares from fewer than t holders never aggregate into a verifying signature" is an unforgeability statement (computational, discrete log) and "interpolating '
+                'fewer than t shares does not yield the secret" is information-theoretic (holds for all but a 1/q fraction of polynomials): outside a program logic. What is machine-checked is '
+                'the algebraic core where stated in lemmas/vprops_sign.rs (two polynomials of degree t-1 with different constant terms agree on any t-1 identifiers) if present, and the refusals above. '
+                + SIGN_ASSUMED,
+     assumptions=['unforgeability below the threshold is a cryptographic assumption, not decided',
+                  'generate_coefficients draws (assumed contract; Kani-backed, bounded)'],
+     design_ref='DESIGN.md section 4 C03')
+prop('C04',
+     level_text='Verus proves for all inputs that aggregate_custom satisfies agg_result_is: a returned signature is exactly (R, sum z_i) AND passes RFC 9591 verification under the group key for '
+                'the package message (ensures released_signatures_verify); if the sum does not verify the result is an error: with detection disabled the verification error (InvalidSignature) '
+                'naming nobody; otherwise InvalidSignatureShare whose culprit list is, in first-cheater mode, exactly [the lowest identifier whose share fails the RFC 9591 5.3 share check] and, in '
+                'all-cheaters mode, exactly the ascending list of all identifiers whose share fails it (detect_cheater loop invariant `culprits` + lemma_culprits_prefix); InvalidSignature if '
+                'nobody fails. Theorems (lemmas/vprops_sign.rs): the share check accepts z iff z equals the honest share for that session, so the named set is exactly the set of participants whose '
+                'share differs from the honest one and an honest participant is never named; shares whose errors cancel give a sum that verifies, which is released (never a wrong accusation).',
+     level_note=SIGN_ASSUMED + ' Error::culprits() (the accessor) is under contract as well (error.rs).',
+     assumptions=['"honest share" is defined relative to verifying shares that are G*s_i and commitments that are G*d_i, G*e_i'],
+     design_ref='DESIGN.md section 4 C04')
+prop('C05',
+     level_text='Verus proves for all inputs: sign returns exactly Err(MissingCommitment) when the signer has no entry in the package and Err(IncorrectCommitment) when the entry differs from the '
+                'commitments stored with the nonces (guards 2 and 3 of spec_sign, before any use of the nonces); a package containing an identity commitment is rejected by sign, aggregate '
+                'and verify_signature_share (exact error GroupError(InvalidIdentityElement)); share verification recomputes rho_i = H1(enc(vk)||H4(msg)||H5(enc(commitment list))||enc(id)), R, '
+                'c = H2(enc(R)||enc(vk)||msg) and lambda_i from the package it is given (contracts state these preimages byte for byte, in ascending identifier order), and accepts z iff '
+                'z*G == D_i + rho_i*E_i + lambda_i*c*Y_i. Theorems: acceptance iff z equals the honest share OF THAT SESSION; the hashed encodings are injective in (group key, message, commitment '
+                'list with identifiers, identifier).',
+     level_note='NOT decided: that a share for session A is rejected in a different session B additionally needs H1/H2/H4/H5 to separate the (provably different) preimages, i.e. collision '
+                'resistance, and that the resulting scalars do not coincide by accident (probability 1/q) -- outside the logic; reduced by the injectivity lemmas to exactly that. ' + SIGN_ASSUMED,
+     assumptions=['collision resistance of H1, H2, H4, H5 (cross-session rejection is decided only up to it)'],
+     design_ref='DESIGN.md section 4 C05')
 prop('C17', units=['frost_rerandomized'],
      level_text='For every RandomizedCiphersuite in the default world (abstract field/group; hash_randomizer an arbitrary deterministic function that may refuse), every group key, '
                 'key package, public key package, signing package, seed / rng stream and explicit randomizer (zero included): Verus proves the real text of '
